@@ -231,6 +231,10 @@ pub struct WasmGenerator {
     /// Registers produced by GetElement instructions, mapped to the element's ValType.
     /// These registers hold pointers to elements but are often used as values in the MIR.
     getelement_registers: HashMap<mir::VReg, wasm_encoder::ValType>,
+    /// The GetElement registers whose element is one word (a number, closure, array handle,
+    /// unresolved type, ...): the register holds the ADDRESS of that word, and whoever needs the
+    /// element's value has to load it. (An aggregate element is its own address.)
+    scalar_element_registers: std::collections::HashSet<mir::VReg>,
     /// Maps MIR function index to its WASM type section index
     fn_type_indices: Vec<u32>,
     /// Adapter function index per MIR function for indirect calls via table.
@@ -413,6 +417,7 @@ impl WasmGenerator {
             alloc_registers: HashMap::new(),
             alloc_register_indirect: HashMap::new(),
             getelement_registers: HashMap::new(),
+            scalar_element_registers: std::collections::HashSet::new(),
             fn_type_indices: Vec::new(),
             indirect_adapter_fn_indices: Vec::new(),
             closure_save_local: 0,
@@ -1215,8 +1220,9 @@ impl WasmGenerator {
                         // Load condition and convert to i32 for WASM if instruction.
                         // The native VM uses JmpIfNeg which jumps to else when cond <= 0.0,
                         // so the then-branch is taken when cond > 0.0.
-                        self.emit_value_load(cond, wasm_func);
-                        if self.infer_value_type(cond) == ValType::F64 {
+                        let cond_type = self.scalar_value_type(cond);
+                        self.emit_value_load_typed(cond, cond_type, wasm_func);
+                        if cond_type == ValType::F64 {
                             // cond > 0.0 means then-branch (matching VM's JmpIfNeg semantics)
                             wasm_func.instruction(&W::F64Const(0.0));
                             wasm_func.instruction(&W::F64Gt);
@@ -1427,8 +1433,9 @@ impl WasmGenerator {
 
                     let phi_info = Self::find_phi_in_block(&ctx.blocks[merge_idx]);
 
-                    self.emit_value_load(cond, func);
-                    if self.infer_value_type(cond) == ValType::F64 {
+                    let cond_type = self.scalar_value_type(cond);
+                    self.emit_value_load_typed(cond, cond_type, func);
+                    if cond_type == ValType::F64 {
                         func.instruction(&W::F64Const(0.0));
                         func.instruction(&W::F64Gt);
                     } else {
@@ -1520,8 +1527,9 @@ impl WasmGenerator {
 
                     let phi_info = Self::find_phi_in_block(&ctx.blocks[merge_idx]);
 
-                    self.emit_value_load(cond, func);
-                    if self.infer_value_type(cond) == ValType::F64 {
+                    let cond_type = self.scalar_value_type(cond);
+                    self.emit_value_load_typed(cond, cond_type, func);
+                    if cond_type == ValType::F64 {
                         func.instruction(&W::F64Const(0.0));
                         func.instruction(&W::F64Gt);
                     } else {
@@ -1645,8 +1653,9 @@ impl WasmGenerator {
 
                 let phi_info = Self::find_phi_in_block(&ctx.blocks[merge_idx]);
 
-                self.emit_value_load(cond, func);
-                if self.infer_value_type(cond) == ValType::F64 {
+                let cond_type = self.scalar_value_type(cond);
+                self.emit_value_load_typed(cond, cond_type, func);
+                if cond_type == ValType::F64 {
                     func.instruction(&W::F64Const(0.0));
                     func.instruction(&W::F64Gt);
                 } else {
@@ -2039,25 +2048,15 @@ impl WasmGenerator {
                         } => {
                             // Extract the element's own type from the composite type
                             let composite_ty = ty.to_type();
-                            let element_vtype = match &composite_ty {
-                                Type::Tuple(elems) => {
-                                    let idx = *tuple_offset as usize;
-                                    if idx < elems.len() {
-                                        Self::type_to_valtype(&elems[idx].to_type())
-                                    } else {
-                                        ValType::I64
-                                    }
-                                }
-                                Type::Record(fields) => {
-                                    let idx = *tuple_offset as usize;
-                                    if idx < fields.len() {
-                                        Self::type_to_valtype(&fields[idx].ty.to_type())
-                                    } else {
-                                        ValType::I64
-                                    }
-                                }
-                                _ => ValType::I64,
+                            let idx = *tuple_offset as usize;
+                            let element_ty = match &composite_ty {
+                                Type::Tuple(elems) => elems.get(idx).copied(),
+                                Type::Record(fields) => fields.get(idx).map(|f| f.ty),
+                                _ => None,
                             };
+                            let element_vtype = element_ty
+                                .map(|e| Self::type_to_valtype(&e.to_type()))
+                                .unwrap_or(ValType::I64);
                             let base_vtype = self.infer_value_type(value);
                             if base_vtype != ValType::I64 {
                                 // Base is already a scalar value. Preserve scalar semantics
@@ -2065,19 +2064,22 @@ impl WasmGenerator {
                                 element_vtype
                             } else {
                                 self.getelement_registers.insert(*reg_idx, element_vtype);
+                                if element_ty.is_some_and(|e| e.word_size() <= 1) {
+                                    self.scalar_element_registers.insert(*reg_idx);
+                                }
                                 ValType::I64
                             }
                         }
                         // Phi inherits type from its first input. An input that is a bare element
-                        // access of a number (`if (c) { t.2 } else { x }`) is an address: the value
-                        // that flows out of the arm is the number it points to.
+                        // access of a one-word element (`if (c) { t.2 } else { x }`) is an address:
+                        // the value that flows out of the arm is the word it points to.
                         I::Phi(v1, _) => match v1.as_ref() {
                             mir::Value::Register(r)
                                 if self.getelement_registers.get(r) == Some(&ValType::F64) =>
                             {
                                 ValType::F64
                             }
-                            _ => self.infer_value_type(v1),
+                            _ => self.scalar_value_type(v1),
                         },
                         // Type casts
                         I::CastFtoI(_) | I::CastItoB(_) => ValType::I64,
@@ -2107,10 +2109,11 @@ impl WasmGenerator {
                         }
                         I::TaggedUnionGetTag(_) => ValType::I64,
                         I::TaggedUnionGetValue(_, _) => ValType::I64, // produces a pointer (address)
-                        // PhiSwitch inherits type from its first input
+                        // PhiSwitch inherits type from its first input (the element's type
+                        // when that is a bare element access, as for Phi)
                         I::PhiSwitch(inputs) => inputs
                             .first()
-                            .map(|first| self.infer_value_type(first))
+                            .map(|first| self.scalar_value_type(first))
                             .unwrap_or(ValType::I64),
                         // Switch does not produce a value
                         I::Switch { .. } => ValType::I64,
@@ -2817,11 +2820,13 @@ impl WasmGenerator {
                             }));
                         }
                         mir::Value::Register(reg_idx)
-                            if self.getelement_registers.get(reg_idx) == Some(&ValType::F64) =>
+                            if self.getelement_registers.get(reg_idx) == Some(&ValType::F64)
+                                || self.scalar_element_registers.contains(reg_idx) =>
                         {
                             // A variable bound by destructuring (`let (a, b) = t`) is the address of
-                            // a number inside the tuple: like a single-word alloc cell it is shared
-                            // by pointer and dereferenced at GetUpValue / SetUpValue time.
+                            // a word inside the tuple: like a single-word alloc cell it is shared
+                            // by pointer and dereferenced at GetUpValue / SetUpValue time (the
+                            // variable may be assigned after the closure was created).
                             is_indirect[i] = true;
                             self.emit_value_load(upindex, func);
                         }
@@ -3131,7 +3136,7 @@ impl WasmGenerator {
                     _ => {
                         if is_scalar {
                             // Scalar: dereference the pointer in linear memory
-                            self.emit_value_load_typed(ptr, ValType::I64, func);
+                            self.emit_address_load(ptr, func);
                             func.instruction(&W::I32WrapI64);
                             let memarg = MemArg {
                                 offset: 0,
@@ -3188,7 +3193,7 @@ impl WasmGenerator {
                     // Single-word store
                     // Stack order for f64.store/i64.store: [i32_addr, value]
                     let expected_vtype = Self::type_to_valtype(&ty.to_type());
-                    self.emit_value_load_typed(dst, ValType::I64, func);
+                    self.emit_address_load(dst, func);
                     func.instruction(&W::I32WrapI64);
                     self.emit_value_load_deref(src, expected_vtype, func);
                     if !matches!(src.as_ref(), mir::Value::Register(r) if self.getelement_registers.contains_key(r))
@@ -3254,7 +3259,7 @@ impl WasmGenerator {
                     return Ok(());
                 }
 
-                self.emit_value_load_typed(value, ValType::I64, func);
+                self.emit_address_load(value, func);
                 if *tuple_offset > 0 {
                     let offset_bytes = match &composite_ty {
                         Type::Tuple(elems) => {
@@ -3880,14 +3885,14 @@ impl WasmGenerator {
 
                         // Set closure_self_ptr to the new closure
                         func.instruction(&W::I32Const(0));
-                        self.emit_value_load(fn_ptr, func);
+                        self.emit_value_load_typed(fn_ptr, ValType::I64, func);
                         func.instruction(&W::I64Store(memarg));
 
                         // Push flattened i64 words matching indirect-call adapter ABI.
                         self.emit_call_args_word(args, func);
 
                         // Load function table index from closure[0]
-                        self.emit_value_load(fn_ptr, func);
+                        self.emit_value_load_typed(fn_ptr, ValType::I64, func);
                         func.instruction(&W::I32WrapI64);
                         func.instruction(&W::I64Load(memarg));
                         func.instruction(&W::I32WrapI64);
@@ -4246,12 +4251,34 @@ impl WasmGenerator {
         }
     }
 
+    /// Emit WASM instructions to load a value that is used as an address in linear memory
+    /// (the destination of a `Store`, the source of a `Load`): never dereferenced.
+    fn emit_address_load(&mut self, value: &VPtr, func: &mut Function) {
+        use wasm_encoder::Instruction as W;
+
+        let actual = self.infer_value_type(value);
+        self.emit_value_load(value, func);
+        if actual == ValType::F64 {
+            func.instruction(&W::I64ReinterpretF64);
+        }
+    }
+
     /// Emit WASM instructions to load a value with type coercion.
     /// If the value's actual type (I64 pointer from GetElement) differs from the expected
     /// type (F64 value), a memory dereference is inserted automatically.
+    ///
+    /// A register that holds the address of a one-word tuple/record element (`t.1`, `r.freq`)
+    /// is dereferenced whatever the expected type is: an element whose type is not a number (a
+    /// closure, an array handle, a `self` that nothing constrains, ...) is a word that has to be
+    /// loaded just like a number. Use `emit_address_load` where the address itself is meant.
     fn emit_value_load_typed(&mut self, value: &VPtr, expected: ValType, func: &mut Function) {
         use wasm_encoder::Instruction as W;
 
+        if matches!(value.as_ref(), mir::Value::Register(r) if self.scalar_element_registers.contains(r))
+        {
+            self.emit_value_load_deref(value, expected, func);
+            return;
+        }
         let actual = self.infer_value_type(value);
         self.emit_value_load(value, func);
         if actual == ValType::I64 && expected == ValType::F64 {
@@ -4512,10 +4539,24 @@ impl WasmGenerator {
     /// where f64 1.0 should become i64 1, not i64 0x3FF0000000000000.
     fn emit_value_load_as_numeric_i64(&mut self, value: &VPtr, func: &mut Function) {
         use wasm_encoder::Instruction as W;
-        let actual = self.infer_value_type(value);
-        self.emit_value_load(value, func);
+        let actual = self.scalar_value_type(value);
+        self.emit_value_load_typed(value, actual, func);
         if actual == ValType::F64 {
             func.instruction(&W::I64TruncSatF64S);
+        }
+    }
+
+    /// The type of the VALUE of a one-word operand: for a register holding the address of a
+    /// one-word tuple/record element the type of that element (the value is what
+    /// `emit_value_load_typed` loads), otherwise the type of the operand itself.
+    fn scalar_value_type(&self, value: &VPtr) -> ValType {
+        match value.as_ref() {
+            mir::Value::Register(r) if self.scalar_element_registers.contains(r) => self
+                .getelement_registers
+                .get(r)
+                .copied()
+                .unwrap_or(ValType::I64),
+            _ => self.infer_value_type(value),
         }
     }
 
